@@ -1,6 +1,7 @@
 """C18 - subsequence masks and segment distances are exact."""
 from hypothesis import strategies as st
 
+from ..gen import chance as gen_chance
 from ..runner import Result, Violation
 
 ID = "C18"
@@ -17,7 +18,7 @@ RULE = (
     "Exhaustive: for parent in 0..2^10-1, child in 1..2^10-1, edges in {True, False}: subseq_segment_dist == -1 iff child has a bit outside parent, "
     "else the number of maximal runs of parent positions absent from child (runs touching either end ignored when edges=False).  For L in 0..8, "
     "parent = L distinct elements, every mask m: subseq_from_mask(m) == elements at set bits, mask_from_subseq(that) == m, subseq_complete == 2^L-1. "
-    "Random: masks up to 24 bits, sequences of distinct strings/ints/tuples.  The exhaustive space is enumerated completely in both tiers.  "
+    "History independence: every ordered couple of calls over the contained pairs up to 6 bits (first call with one end mode, second with the other) and random call sequences of 2-12 calls on <=7 bits must give the reference answer for the later call.  Random: masks up to 24 bits, sequences of distinct strings/ints/tuples.  The exhaustive space is enumerated completely in both tiers.  "
     "Non-trivial: child strictly inside parent with >=1 interior and >=1 end run; distinct by (child, parent)."
 )
 ASSUMPTIONS = ["child mask non-empty", "sequence elements distinct"]
@@ -50,7 +51,7 @@ def ref_dist(child, parent, edges, nbits):
 
 
 def exhaustive(tier):
-    return [("dist", i, 64) for i in range(64)] + [("conv", 0, 1)]
+    return [("dist", i, 64) for i in range(64)] + [("conv", 0, 1)] + [("couples", i, 32) for i in range(32)]
 
 
 def run_job(job):
@@ -59,13 +60,33 @@ def run_job(job):
         for parent in range(1 << BITS):
             if parent % mod == idx:
                 yield {"kind": "dist_block", "parent": parent}
+    elif kind == "couples":
+        # the functions are pure: an answer may not depend on the calls made before it
+        pairs = contained_pairs(6)
+        for k in range(len(pairs)):
+            if k % mod == idx:
+                yield {"kind": "couple_block", "first": k}
     else:
         for length in range(0, 9):
             yield {"kind": "conv_block", "length": length}
 
 
+def contained_pairs(bits):
+    return [(c, p) for p in range(1 << bits) for c in range(1, 1 << bits) if not c & ~p]
+
+
 @st.composite
 def _random(draw):
+    if gen_chance(draw, 1, 3):
+        nb = draw(st.integers(1, 7))
+        calls = []
+        for _ in range(draw(st.integers(2, 12))):
+            parent = draw(st.integers(0, 2**nb - 1))
+            child = draw(st.integers(1, 2**nb - 1))
+            if draw(st.booleans()):
+                child = (child & parent) or (parent & -parent) or 1
+            calls.append([child, parent, draw(st.booleans())])
+        return {"kind": "sequence", "calls": calls, "bits": nb}
     if draw(st.booleans()):
         nb = draw(st.integers(1, 24))
         parent = draw(st.integers(0, 2**nb - 1))
@@ -107,6 +128,30 @@ def check(case):
             if not child & ~parent and ref_dist(child, parent, False, nbits) >= 1 and ref_dist(child, parent, True, nbits) > ref_dist(child, parent, False, nbits):
                 nt += 1
         return Result(nt > 0, [kind, f"nontrivial_pairs={min(nt, 1)}"], evals=evals)
+    if kind == "couple_block":
+        pairs = contained_pairs(6)
+        c1, p1 = pairs[case["first"]]
+        evals = 0
+        for c2, p2 in pairs:
+            for e1, e2 in ((True, False), (False, True)):
+                subseq_segment_dist(c1, p1, e1)
+                got = subseq_segment_dist(c2, p2, e2)
+                exp = ref_dist(c2, p2, e2, 6)
+                evals += 1
+                if got != exp:
+                    raise Violation("segment_dist.depends-on-previous-call", observed=got, expected=exp,
+                                    extra={"previous": [bin(c1), bin(p1), e1], "call": [bin(c2), bin(p2), e2]})
+        return Result(True, [kind], evals=evals)
+    if kind == "sequence":
+        evals = 0
+        for child, parent, edges in case["calls"]:
+            got = subseq_segment_dist(child, parent, edges)
+            exp = ref_dist(child, parent, edges, case["bits"])
+            evals += 1
+            if got != exp:
+                raise Violation("segment_dist.in-sequence", observed=got, expected=exp,
+                                extra={"child": bin(child), "parent": bin(parent), "edges": edges})
+        return Result(len(case["calls"]) >= 3, [kind], evals=evals)
     if kind == "conv_block":
         length = case["length"]
         parent = [f"e{i}" for i in range(length)]
